@@ -265,7 +265,7 @@ def worlds(tier):
     base = [("declare_stub",)]
     ws = [
         corner("unit8", name="virtual-reusable", reusable=True, qubits=2),
-        corner("unit8", name="physical-like", reusable=False, qubits=2),
+        corner("unit8", name="physical-like", reusable=False, qubits=2, qid_alias={"q0": 0, "q1": 1}),  # integer ids incl. the falsy 0
     ]
     return ws
 
